@@ -2,3 +2,4 @@
 import Casket.Props.C05
 import Casket.Props.C17
 import Casket.Props.C18
+import Casket.Props.C12
